@@ -12,6 +12,9 @@ pub mod c14;
 pub mod c15;
 pub mod c18;
 pub mod env;
+pub mod server;
+pub mod simchain;
+pub mod simtest;
 
 /// splitmix64: every random choice of a run derives from `VERIF_SEED`.
 #[derive(Clone)]
@@ -304,6 +307,7 @@ pub fn main() {
         "C14" => c14::run(&opts),
         "C15" => c15::run(&opts),
         "C18" => c18::run(&opts),
+        "SIMTEST" => simtest::run(&opts),
         other => {
             eprintln!("unknown property {}", other);
             std::process::exit(2);
